@@ -132,7 +132,7 @@ func checkTree(source string, t *tboc.Cell, r *cell.Cell, fresh bool, wit map[st
 }
 
 func sectionSynthetic() {
-	n := R.N(300, 5000)
+	n := R.N(300, 30000)
 	for i := 0; i < n; i++ {
 		rng := R.Rng("dag", i)
 		o := gen.DagOpts{Nodes: rng.Range(1, 120), Exotic: i%4 != 0, SmallBits: rng.Chance(1, 3)}
@@ -325,7 +325,7 @@ func ones(n int) []bool {
 
 // (e) construction paths for ordinary DAGs
 func sectionPaths() {
-	n := R.N(200, 4000)
+	n := R.N(200, 20000)
 	for i := 0; i < n; i++ {
 		rng := R.Rng("paths", i)
 		root := gen.RandomDag(rng, gen.DagOpts{Nodes: rng.Range(1, 40), SmallBits: rng.Bool()})
@@ -413,7 +413,7 @@ func sectionPaths() {
 // proof builder output: the Merkle proof produced by tongo, parsed by tongo,
 // must hash (per node) as the reference says for the same structure
 func sectionProver() {
-	n := R.N(150, 3000)
+	n := R.N(150, 15000)
 	for i := 0; i < n; i++ {
 		rng := R.Rng("prover", i)
 		root := gen.RandomDag(rng, gen.DagOpts{Nodes: rng.Range(2, 40), SmallBits: true})
@@ -479,7 +479,7 @@ func sectionProver() {
 // parses and hashes them, are the original cells (same type, same hash), and the virtual root
 // hashes at level 0 to the original root hash
 func sectionProverExotic() {
-	n := R.N(120, 2500)
+	n := R.N(120, 12000)
 	for i := 0; i < n; i++ {
 		rng := R.Rng("prover-exotic", i)
 		var mk func(d int) *cell.Cell
